@@ -24,6 +24,10 @@ def main():
         d = os.path.join(VERIF, 'seeded', name)
         mp = os.path.join(d, 'meta.json')
         meta = json.load(open(mp))
+        if meta.get('obsolete_since'):
+            print(name, 'OBSOLETE since', meta['obsolete_since'].get(
+                'repo_commit'))
+            continue
         pid = meta.get('breaks_property') or meta.get('property')
         tmp = tempfile.mkdtemp(prefix='verif-reeval-')
         try:
